@@ -6,10 +6,34 @@ STD_TRUSTED = {
     "JMeq_eq", "JMeq.JMeq_eq", "Eqdep.Eq_rect_eq.eq_rect_eq", "eq_rect_eq",
 }
 
+INT = "Go's int/int64 arithmetic is modelled by unbounded Z (wrap-around written explicitly where the property is about it: int32(status))"
+
 PROPS = {
+    "C02": {
+        "families": ["graph"],
+        "assumptions": [INT, "builder calls are modelled as (from, destinations) pairs; AddStep's one-step-per-status panic is outside the model"],
+        "explanation": "graph = declared edges for every call list (theorem); real Builder vs model on random call lists and permutations",
+    },
+    "C03": {
+        "families": ["runstate", "graph"],
+        "exhaustive": True,
+        "assumptions": [INT],
+        "explanation": "controller table exhaustively (codes -2..10 x 4 ops; direct and via web UI handler); terminal classification for every call list",
+    },
+    "C06": {
+        "families": ["route"],
+        "exhaustive": True,
+        "assumptions": [INT, "strconv.FormatInt modelled by stdlib DecimalString (NilZero.string_of_int . Z.to_int), compared on the grid; protobuf encoding of the outbox entry assumed lossless on run_id/type/headers (exercised by decoding every entry)"],
+        "explanation": "routing function total over all codes (theorem) + exhaustive grid against MakeOutboxEventData; topic disjointness for every name (theorem) + grid",
+    },
     "C10": {
         "families": ["shard"],
-        "assumptions": ["Go's int64 arithmetic is modelled by unbounded Z; the repaired shard filter computes a non-negative remainder whose intermediate values stay within int64 (|id % n| < n)"],
+        "assumptions": [INT, "the repaired shard filter computes a non-negative remainder whose intermediate values stay within int64 (|id % n| < n)"],
         "explanation": "shard filter: theorem for every integer ID and every n; correspondence on a window, int64 edges, random and hashed IDs",
+    },
+    "C13": {
+        "families": ["counter"],
+        "assumptions": ["the error-counter key err.Error()+process+'-'+runID is modelled as the triple (error, process, run): injectivity of the concatenation on realistic inputs is assumed and exercised"],
+        "explanation": "error counter as a map (theorems: Add/Clear touch exactly their key; threshold decision exact) + random op sequences against internal/errorcounter",
     },
 }
